@@ -8,7 +8,8 @@ DESIGN_REF = "DESIGN.md section 5, C15"
 PROP_FILES = ["props/Properties_C15.v"]
 RULE = ("cases: operation scripts `ops <mem|ldb> <U> <kinds> <db> <op>*` run on a stack of real CCoinsViewCache / "
         "CoinsViewOverlay objects over an in-driver map view (mem) or a real in-memory CCoinsViewDB (ldb). "
-        "(1) exhaustive: every sequence of length <= 4 (thorough: 5) over a 13-operation alphabet on ONE outpoint, two "
+        "(0) corpus/C15/seeds.case: minimal scripts for each FRESH/DIRTY case split; "
+        "(1) exhaustive: every sequence of length <= 4 over a 13-operation alphabet (thorough: also length 5 over 10 operations) on ONE outpoint, two "
         "caches, database empty or holding the coin (FRESH/DIRTY interactions are per outpoint); (2) targeted scenario "
         "families (re-add after spend, spend of fresh, overwrite of clean, flush child then read parent, uncache dirty, "
         "sync then reuse) with random padding; (3) random well-formed scripts of length 1-40 (and 200) on 4-6 outpoints, 1-3 "
@@ -242,12 +243,18 @@ ALPHABET = ["add 0 0 1:1:0:10:0 0", "add 0 0 2:2:1:50:0 1", "spend 0 0", "get 0 
             "flush 0", "flush 1", "sync 0", "sync 1", "reset 0", "access 0 0"]
 
 
-def exhaustive(maxlen):
+ALPHABET5 = [a for a in ALPHABET if a not in ("access 0 0", "uncache 1 0", "sync 1")]
+
+
+def exhaustive(thorough):
     out = []
     for db in ("-", "0=9:0:0:40:0"):
         h = "ops mem 1 cc %s " % db
-        for n in range(1, maxlen + 1):
+        for n in range(1, 5):
             for seq in itertools.product(ALPHABET, repeat=n):
+                out.append(h + " ".join(seq))
+        if thorough:
+            for seq in itertools.product(ALPHABET5, repeat=5):
                 out.append(h + " ".join(seq))
     return out
 
@@ -262,7 +269,7 @@ def gen(rng, tier):
     for _ in range(60 if quick else 2000):
         cases.append(random_case(rng, 200))
     # the exhaustive small-scope family last: its disagreements are the least informative to read
-    cases += exhaustive(4 if quick else 5)
+    cases += exhaustive(not quick)
     for _ in range(600 if quick else 15000):
         cases.append(random_case(rng, rng.randrange(1, 41), malformed=True))
     return cases
